@@ -33,12 +33,18 @@ LEVEL_TEXT = (
     "Lean theorems about an executable model of power_iteration/operator_norm, the three estimate_parameters and the "
     "closed-form norms: every power-iteration estimate of A^H A is <= ||A||^2 and the estimates are non-decreasing in the "
     "budget; exact 0 for the zero operator; Diagonal/ScaledIdentity formulas equal the matrix norms of diag(d) for fro, nuc, "
-    "+-inf, +-1, +-2; tau*sigma*c^2 = 1/factor < 1 and sigma = ratio*tau; mu > c_A^2, nu > c_B^2 for factor > 1."
+    "+-inf, +-1, +-2; tau*sigma*c^2 = 1/factor < 1 and sigma = ratio*tau; mu > c_A^2, nu > c_B^2 for factor > 1. "
+    "Convergence under a spectral gap: with the largest eigenvalue lam_1 of A^H A separated (others <= r*lam_1, r < 1) and a start not "
+    "orthogonal to the top eigenvector, lam_1(1 - r^(2k) C) <= estimate(k+1) <= lam_1 = ||A||^2, hence operator_norm -> ||A||_2 "
+    "(orthonormal eigenbasis, or Mathlib's spectral theorem on a finite-dimensional space); MatrixOperator.norm for ord = inf, 1 is the "
+    "induced norm, -inf/-1 the minimal row/column sums, fro/None the Frobenius norm; the estimators at a zero norm estimate return "
+    "inf / 0 (negation witnesses over IEEE-extended reals; known finding)."
 )
 LEVEL_NOTE = (
     "Trusted: Lean kernel + Mathlib; real-number idealisation (rounding not modelled); jax.random, jvp/vjp, the SVD behind "
-    "jnp.linalg.norm(ord=2,-2,'nuc') as contracts. Convergence of power iteration to sigma_max under a spectral gap is not "
-    "proved (exercised numerically). Tie: differential testing on operators of size <= 4x4, budgets <= 40."
+    "jnp.linalg.norm(ord=2,-2,'nuc') as contracts. Convergence is proved for exact arithmetic (the proved rate is also checked "
+    "on the real code for gapped operators). Tie: differential testing on operators of size <= 4x4, budgets <= 200, scales 2^-40..2^40 "
+    "(relative comparison), NaN/inf/overflowing operators."
 )
 PROP_MODULES = ["Scico.Props.C17"]
 EXTRA_TARGETS = ["Drv.Estim"]
@@ -47,7 +53,7 @@ FILES = ["scico/linop/_util.py", "scico/optimize/_primaldual.py", "scico/optimiz
          "scico/linop/_matrix.py"]
 RULE = (
     "power/opnorm: (operator, key, budget) with operator in {real/complex Diagonal, real/complex dense MatrixOperator with "
-    "dyadic entries, rank-one, zero, ScaledIdentity, Identity, gapped spectrum, Jacobian of x->W sin x (+x^2)}, sizes 1-4, "
+    "dyadic entries, rank-one, zero, ScaledIdentity, Identity, gapped spectrum, Jacobian of x->W sin x (+x^2), NaN/inf entries}, sizes 1-4, "
     "budgets 0..N, keys None/0..3; estimators: the same operators x ratio x factor in {default, None, 1, 1.5, 2} x budgets; "
     "norms: every ord in {None,fro,nuc,inf,-inf,1,-1,2,-2} plus invalid {0,3,-3,'bad'} on Diagonal (plain, broadcast, block, "
     "complex), ScaledIdentity (plain, n-d, nested, complex) and MatrixOperator. Non-trivial: budget >= 1 and the operator is "
@@ -136,6 +142,7 @@ def oracle_opnorm(case):
     smax = float(np.linalg.norm(M, 2)) if M.size else 0.0
     prev = None
     base = None
+    ests = []
     if desc.get("scale_k") is not None and case.get("base") is not None:
         base = G.linear_of(case["base"])
     for k in sorted(case["budgets"]):
@@ -168,9 +175,38 @@ def oracle_opnorm(case):
         if prev is not None and est < prev[1] * (1 - 1e-9) - 1e-300:
             return {"why": "estimate decreased when the budget grew", "budgets": [prev[0], k], "estimates": [prev[1], est]}
         prev = (k, est)
+        ests.append((k, est))
     if case.get("converged_check") and prev is not None and smax > 0:
         if abs(prev[1] - smax) > 1e-6 * smax:
             return {"why": "estimate did not converge to the separated largest singular value", "estimate": prev[1], "exact": smax, "budget": prev[0]}
+        bad = _rate_violation(M, G.start_vector(A, key), ests)
+        if bad is not None:
+            return bad
+    return None
+
+
+def _rate_violation(M, v0, ests):
+    """the proved rate (C17_opnorm_converges): with lam = squared singular values, r = lam_2/lam_1 < 1, c = <v_1, v0>,
+    C = (|v0|^2 - c^2)/c^2 :   lam_1 (1 - r^(2(k-1)) C) <= estimate(k)^2   for every budget k >= 1  (real operators)"""
+    if np.iscomplexobj(M) or np.iscomplexobj(v0):
+        return None
+    n = M.shape[1]
+    _, S, Vt = np.linalg.svd(np.asarray(M, dtype=np.float64))
+    lam = np.zeros(n)
+    lam[: len(S)] = S ** 2
+    if n > 1 and not lam[1] < lam[0] * (1 - 1e-9):
+        return None
+    r = float(lam[1] / lam[0]) if n > 1 else 0.0
+    v0 = np.asarray(v0, dtype=np.float64).ravel()
+    c = float(Vt[0] @ v0)
+    if abs(c) <= 1e-6 * np.linalg.norm(v0):
+        return None
+    C = float(v0 @ v0 - c * c) / (c * c)
+    for k, est in ests:
+        bound = lam[0] * (1.0 - r ** (2 * (k - 1)) * C)
+        if est * est < bound - 1e-9 * lam[0]:
+            return {"why": "estimate is below the proved geometric lower bound lam_1(1 - r^(2(k-1)) C) (convergence under a spectral gap)",
+                    "maxiter": k, "estimate^2": est * est, "lower_bound": bound, "lam_1": float(lam[0]), "r": r, "C": C}
     return None
 
 
